@@ -68,6 +68,9 @@ fn run_program(case: &Value) -> Value {
                 .map(|g| b.goal::<G>(g))
                 .collect();
             let goal = b.query_goal(&qterms, body, case["final_probe"].as_bool().unwrap_or(true));
+            if case["engine"].as_bool().unwrap_or(false) {
+                install_engine_observer(id.clone());
+            }
             let q: Query<VecResult, VU, E> = Query::new(qterms.clone(), goal);
             let mut it = q.run_with_user(VU::default(), ());
             loop {
